@@ -16,10 +16,10 @@ def cellArg (s : String) : Option Cell :=
 
 def cellOut (c : Cell) : String := canonString c.toTable [0]
 
-def outcomeTag {α} : Outcome α → String
+private def outcomeTag {α} : Outcome α → String
   | .ok _ => "ok" | .err _ => "err" | .panic _ => "panic"
 
-def addrOut : Outcome Address → String
+private def addrOut : Outcome Address → String
   | .ok a => s!"ok {a.workchain} {hexOut a.hash}"
   | .err _ => "err"
   | .panic _ => "panic"
